@@ -147,6 +147,9 @@ impl VM {
         let mut counter = 0;
 
         while let Ok(instruction) = self.current_instruction() {
+            #[cfg(sle_verif)]
+            crate::verif::emit(crate::verif::Event::LoopIter { site: "vm::execute" });
+
             let instruction_pointer = self
                 .thread_queue
                 .front_mut()
@@ -168,6 +171,12 @@ impl VM {
                 .mark_visited(instruction_pointer)?;
 
             let result = instruction.execute(self);
+
+            #[cfg(sle_verif)]
+            let verif_exec_error = result.as_ref().err().cloned();
+            #[cfg(sle_verif)]
+            let verif_errors_before = self.errors.len();
+
             match result {
                 Ok(_) => {
                     self.current_thread_mut()
@@ -198,6 +207,30 @@ impl VM {
                     self.kill_current_thread();
                 }
             }
+
+            #[cfg(sle_verif)]
+            crate::verif::emit_with(|| {
+                let thread = self.thread_queue.front().expect("A thread is present");
+                crate::verif::Event::Exec {
+                    tid:         thread.verif_id,
+                    ip:          instruction_pointer,
+                    text:        instruction.as_text_code(),
+                    ok:          verif_exec_error.is_none(),
+                    err_kind:    verif_exec_error.as_ref().map(|e| format!("{:?}", e.payload)),
+                    err_loc:     verif_exec_error.as_ref().map(|e| e.location),
+                    recorded:    verif_exec_error.is_some()
+                        && self.errors.len() > verif_errors_before,
+                    cost:        instruction.min_gas_cost(),
+                    gas_after:   thread.gas_usage(),
+                    visits:      thread
+                        .state()
+                        .visited_instructions()
+                        .visit_count(instruction_pointer)
+                        .unwrap_or(usize::MAX),
+                    killed:      self.current_thread_killed,
+                    stack_depth: thread.state().stack().depth(),
+                }
+            });
 
             // This should never be called if there is nothing to advance to, so if it
             // errors we forward it immediately.
@@ -267,6 +300,21 @@ impl VM {
             .gas_usage()
             > self.config.gas_limit;
         let should_die = self.current_thread_killed;
+
+        #[cfg(sle_verif)]
+        crate::verif::emit_with(|| {
+            let retire = exceeded_iteration_limit || is_out_of_gas || should_die;
+            crate::verif::Event::Advance {
+                tid:     self.thread_queue.front().expect("A thread is present").verif_id,
+                ip:      instruction_pointer,
+                next:    if retire { None } else { Some(next_offset) },
+                oob:     oob_instruction,
+                limit:   exceeded_iteration_limit && !oob_instruction,
+                gas:     is_out_of_gas,
+                killed:  should_die,
+                gas_err: retire && is_out_of_gas,
+            }
+        });
 
         if exceeded_iteration_limit || is_out_of_gas || should_die {
             // In this case we are at the end of this thread, so we need to collect it and
@@ -406,6 +454,19 @@ impl VM {
         // It is a programmer error to ask for a thread to be forked when none exists,
         // so we forward the error immediately.
         let new_thread = self.current_thread_mut()?.fork(jump_target);
+
+        #[cfg(sle_verif)]
+        crate::verif::emit_with(|| {
+            let parent = self.thread_queue.front().expect("A thread is present");
+            crate::verif::Event::Fork {
+                parent: parent.verif_id,
+                child:  new_thread.verif_id,
+                from:   parent.instructions().instruction_pointer(),
+                target: jump_target,
+                forks:  self.jump_targets.cond_jump_count(jump_target).unwrap_or(usize::MAX),
+            }
+        });
+
         self.enqueue_thread(new_thread);
 
         Ok(())
@@ -477,6 +538,12 @@ impl VM {
 
     /// Stores the provided error into the error buffer.
     pub fn store_error(&mut self, error: LocatedError) {
+        #[cfg(sle_verif)]
+        crate::verif::emit_with(|| crate::verif::Event::StoreErr {
+            kind: format!("{:?}", error.payload),
+            loc:  error.location,
+        });
+
         self.errors.add(error);
     }
 
